@@ -64,6 +64,21 @@ def programs(ctx):
                 for m in (MODES if not quick else MODES[k % 2::2]):
                     p.quantize(1, 2, m, 3)
             progs.append(p.d())
+    # the same value held in different units, quantized one after the other with the same quantum and mode: each
+    # result is in the called quantity's unit (nothing carries over from an equal quantity)
+    for (q, qu) in ((F(1), 'ka'), (F(1, 2), 'a'), (F(3), 'ha')):
+        p = Prog('c13e%d' % k)
+        k += 1
+        p.make(2, 'A', q, qu, 'dec')
+        for a in amounts[::3]:
+            for m in (MODES[k % 8], None):
+                p.make(1, 'A', a, 'ka', 'dec')
+                p.quantize(1, 2, m, 3)
+                p.make(1, 'A', a * 10, 'a', 'dec')
+                p.quantize(1, 2, m, 3)
+                p.make(1, 'A', a * 2, 'ha', 'frac')
+                p.quantize(1, 2, m, 3)
+        progs.append(p.d())
     # rejections: quantum of another type, type without reference unit, plain number - whatever the amount (zero too)
     p = Prog('c13rej')
     for a in (F(7, 3), F(0), F(-1, 2)):
@@ -140,6 +155,26 @@ def run(ctx):
                        'decimalfp true division guarded (DESIGN 5.2)']
     model(ctx)
     calccheck.run_programs(ctx, programs(ctx), 'quantize/round', sigfn=sig)
+    # amounts within 10^-15 .. 10^-30 of a tie or of a multiple of the quantum, as Fraction and as Decimal, on the
+    # predefined catalogue (BCalc.tla: big rationals, the library's result carried as witness)
+    bcalccheck_cases = []
+    from checks.bcalccheck import q as bq
+    eps = [F(1, 3 * 10 ** 15), F(1, 10 ** 15), F(1, 7 * 10 ** 20), F(1, 10 ** 30)]
+    for (u, qu, qa) in (('g', 'g', F(1)), ('g', 'g', F(3)), ('m', 'cm', F(25)), ('kg', 'g', F(500))):
+        for base in (F(1, 2), F(3, 2), F(5, 2), F(1), F(2), F(-1, 2), F(-3, 2), F(-1), F(0)):
+            for e in eps[:2] if ctx.tier == 'quick' else eps:
+                for sgn in (1, -1):
+                    # amount (in u) = (base + sgn*e) quanta
+                    scale = {'g': F(1), 'kg': F(1000), 'm': F(100), 'cm': F(1)}
+                    a = (base + sgn * e) * qa * scale[qu] / scale[u]
+                    for m in MODES:
+                        for rep in ('frac', 'dec'):
+                            if rep == 'dec' and any(a.denominator % p_ == 0 for p_ in (3, 7)):
+                                continue
+                            bcalccheck_cases.append(dict(op='Quantize', mode='ROUND_HALF_EVEN', rm=m,
+                                                         x=bq(u, a, rep), y=bq(qu, qa, 'dec')))
+    from checks import bcalccheck
+    bcalccheck.run_cases(ctx, bcalccheck_cases, 'near-ties')
     # the quantize calls of the repository's own suite (witness-based judgement on big rationals)
     from checks import bcalccheck
     bcalccheck.repo_suite(ctx, {'Quantize'})
